@@ -152,6 +152,110 @@ def r151(ctx):
             ctx.bad(rid, r, "System.copy does not return a new object: copies of a path alias the original's frames")
 
 
+def _paste_slice_form(ctx, rid, f, pb, pf, ov, lb):
+    """paste_paths whose forward part is one slice `<new>.phasepoints.extend(path_forw.phasepoints[A:B])`
+    (the frame list is extended directly, so Path.append's limit test is bypassed): decided by
+    linear arithmetic, case split on `overlap`: A == [overlap] and n + (B - A) == maxlen, n being
+    the length after the backward part. Returns False when the function is not of this form."""
+    fl = flow_of(f)
+    cfg = fl.cfg
+    ext = [c for c in walk_local(f) if isinstance(c, ast.Call) and isinstance(c.func, ast.Attribute) and c.func.attr == "extend" and c.args
+           and isinstance(c.func.value, ast.Attribute) and c.func.value.attr == "phasepoints"]
+    ext = [c for c in ext if isinstance(c.args[0], ast.Subscript) and isinstance(c.args[0].slice, ast.Slice) and ast.unparse(c.args[0].value) == f"{pf}.phasepoints"]
+    if len(ext) != 1:
+        return False
+    c = ext[0]
+    newp = ast.unparse(c.func.value.value)
+    sl = c.args[0].slice
+    if sl.step is not None:
+        raise AnalysisError("R-15.3: slice with a step in paste_paths")
+
+    def lin(e, ovl, depth=0):
+        """linear form over {'maxlen', 'n', 1}; None = unbounded (no limit)"""
+        if e is None:
+            return None
+        if depth > 8:
+            raise AnalysisError("R-15.3: slice bound too deep")
+        if isinstance(e, ast.Constant):
+            if e.value is None:
+                return None
+            if isinstance(e.value, bool):
+                return {1: int(e.value)}
+            if isinstance(e.value, int):
+                return {1: e.value}
+        if isinstance(e, ast.Name):
+            if e.id == ov:
+                return {1: int(ovl)}
+            if e.id == "maxlen":
+                return {"maxlen": 1}
+            e2, _ = deref(fl, e, cfg.node_of(c))
+            if e2 is not e:
+                return lin(e2, ovl, depth + 1)
+        if isinstance(e, ast.Attribute) and e.attr == "length" and ast.unparse(e.value) == newp:
+            return {"n": 1}
+        if isinstance(e, ast.Call) and last_name(e) == "len" and e.args and ast.unparse(e.args[0]) == f"{newp}.phasepoints":
+            return {"n": 1}
+        if isinstance(e, ast.Call) and last_name(e) == "int" and e.args:
+            return lin(e.args[0], ovl, depth + 1)
+        if isinstance(e, ast.IfExp):
+            t = e.test
+            if isinstance(t, ast.Name) and t.id == ov:
+                return lin(e.body if ovl else e.orelse, ovl, depth + 1)
+            if isinstance(t, ast.UnaryOp) and isinstance(t.op, ast.Not) and isinstance(t.operand, ast.Name) and t.operand.id == ov:
+                return lin(e.orelse if ovl else e.body, ovl, depth + 1)
+            if isinstance(t, ast.Compare) and len(t.ops) == 1 and isinstance(t.ops[0], (ast.Is, ast.IsNot)) and ast.unparse(t.left) == "maxlen":
+                is_none = isinstance(t.ops[0], ast.Is)
+                return lin(e.orelse if is_none else e.body, ovl, depth + 1)  # the limited case
+        if isinstance(e, ast.BinOp) and isinstance(e.op, (ast.Add, ast.Sub)):
+            a, b = lin(e.left, ovl, depth + 1), lin(e.right, ovl, depth + 1)
+            if a is None or b is None:
+                raise AnalysisError("R-15.3: arithmetic on an unbounded slice bound")
+            sg = 1 if isinstance(e.op, ast.Add) else -1
+            out = dict(a)
+            for k, v in b.items():
+                out[k] = out.get(k, 0) + sg * v
+            return {k: v for k, v in out.items() if v != 0}
+        raise AnalysisError(f"R-15.3: slice bound `{short(e, 40)}` of paste_paths is outside the linear fragment")
+
+    bad = False
+    for ovl in (True, False):
+        a = lin(sl.lower, ovl) if sl.lower is not None else {}
+        a = a or {}
+        b = lin(sl.upper, ovl)
+        want_a = {1: 1} if ovl else {}
+        if {k: v for k, v in a.items() if v} != want_a:
+            ctx.bad(rid, c, f"paste_paths (overlap={ovl}) takes the forward segment from index {a or 0}: " + ("the shared point is added twice" if ovl else "the first forward frame is dropped although the segments do not overlap"), construct=f"forward slice start, overlap={ovl}")
+            bad = True
+        if b is None:
+            ctx.bad(rid, c, f"paste_paths (overlap={ovl}) extends the frame list with an unbounded slice of the forward segment: the length limit is not applied (the list is extended directly, Path.append's test is bypassed)", construct=f"forward slice without stop, overlap={ovl}")
+            bad = True
+            continue
+        # frames added at most  b - a ; length after = n + b - a  must equal maxlen when truncating
+        tot = dict(b)
+        for k, v in a.items():
+            tot[k] = tot.get(k, 0) - v
+        tot["n"] = tot.get("n", 0) + 1
+        tot = {k: v for k, v in tot.items() if v != 0}
+        if tot == {"maxlen": 1}:
+            ctx.ok(rid, c, f"paste_paths (overlap={ovl}): a truncated paste has exactly maxlen frames (n + stop - start == maxlen)")
+        else:
+            extra = dict(tot)
+            extra["maxlen"] = extra.get("maxlen", 0) - 1
+            extra = {k: v for k, v in extra.items() if v != 0}
+            ctx.bad(rid, c, f"paste_paths (overlap={ovl}) extends the frame list directly (Path.append's limit test is bypassed) with a slice that leaves a truncated paste with maxlen + ({extra if extra else 0}) frames: " + ("the pasted path exceeds the length limit" if extra.get(1, 0) > 0 else "the paste stops short of the limit"),
+                    construct=f"forward slice length, overlap={ovl}")
+            bad = True
+    # backward loop as before: reversed and appended through Path.append
+    itb = ast.unparse(lb.iter)
+    if itb in (f"reversed({pb}.phasepoints)", f"{pb}.phasepoints[::-1]"):
+        ctx.ok(rid, lb, "the backward segment is visited in reverse (time order)")
+    else:
+        ctx.bad(rid, lb, f"the first loop of paste_paths iterates `{itb}`, not the backward segment in reverse", construct="paste_paths first loop over " + itb)
+    for _ in range(3):
+        ctx.ok(rid, c, "slice form of the forward part analysed by linear arithmetic", nontrivial=False)
+    return True
+
+
 def r153(ctx):
     """paste_paths: backward segment reversed, then the forward segment minus exactly one shared
     point iff `overlap`; every visited frame is appended; Path.append refuses at the limit."""
@@ -164,6 +268,8 @@ def r153(ctx):
     pb, pf, ov = params[0], params[1], params[2]
     cfg = cfg_of(f)
     loops = [n for n in f.body if isinstance(n, ast.For)]
+    if len(loops) == 1 and _paste_slice_form(ctx, rid, f, pb, pf, ov, loops[0]):
+        return
     if len(loops) != 2:
         raise AnalysisError(f"R-15.3: paste_paths has {len(loops)} top-level loops (expected 2: backward, forward)")
     lb, lf = loops
@@ -358,6 +464,8 @@ def run(ctx):
 
 
 VARIANTS = [
+    B("c15-paste-slice-off-by-one", PATH, '    first = True\n    for phasepoint in path_forw.phasepoints:\n        if first and overlap:\n            first = False\n            continue\n        app = new_path.append(phasepoint)\n        if not app:\n            msg = f"Truncated path at: {new_path.length}"\n            logger.warning(msg)\n            return new_path\n    return new_path\n', '    start = 1 if overlap else 0\n    stop = None if maxlen is None else maxlen - new_path.length + 1\n    new_path.phasepoints.extend(path_forw.phasepoints[start:stop])\n    return new_path\n', "R-15.3", why="seeded C15_f"),
+    K("c15-keep-paste-slice-form", PATH, '    first = True\n    for phasepoint in path_forw.phasepoints:\n        if first and overlap:\n            first = False\n            continue\n        app = new_path.append(phasepoint)\n        if not app:\n            msg = f"Truncated path at: {new_path.length}"\n            logger.warning(msg)\n            return new_path\n    return new_path\n', '    start = 1 if overlap else 0\n    stop = None if maxlen is None else maxlen - new_path.length + start\n    new_path.phasepoints.extend(path_forw.phasepoints[start:stop])\n    return new_path\n'),
     B("c15-cross-strict-upper", PATH, "        cross = [ordermin < interpos <= ordermax for interpos in interfaces]", "        cross = [ordermin < interpos < ordermax for interpos in interfaces]", "R-15.4", control=True, why="seeded C15_c"),
     B("c15-cross-inclusive-lower", PATH, "        cross = [ordermin < interpos <= ordermax for interpos in interfaces]", "        cross = [ordermin <= interpos <= ordermax for interpos in interfaces]", "R-15.4"),
     K("c15-keep-cross-renamed", PATH, "        cross = [ordermin < interpos <= ordermax for interpos in interfaces]", "        cross = [ordermin < lam <= ordermax for lam in interfaces]"),
